@@ -46,6 +46,8 @@ class Leaf:
                 cs.append(z3.And(z3.ULE(c, 0x10ffff), z3.Or(z3.ULT(c, 0xd800), z3.UGT(c, 0xdfff))))
             elif k == 'str':
                 cs.append(z3.And(z3.ULE(c, 0x10ffff), z3.Or(z3.ULT(c, 0xd800), z3.UGT(c, 0xdfff))))
+            elif k == 'jsstr':      # inside a double-quoted JS string literal, no escapes
+                cs.append(z3.And(z3.ULE(c, 0x10ffff), z3.Or(z3.ULT(c, 0xd800), z3.UGT(c, 0xdfff)), c != 34, c != 92, c != 10, c != 13, c != 0x2028, c != 0x2029))
             elif k == 'comment':
                 cs.append(z3.And(z3.ULE(c, 0x10ffff), z3.Or(z3.ULT(c, 0xd800), z3.UGT(c, 0xdfff)), c != 0))
                 if i + 1 < len(self.chars):
